@@ -2991,6 +2991,20 @@ impl GlobalInferenceCtx<'_> {
                             let expected_tys = match expected_ty.as_struct() {
                                 Some(f) => f,
                                 None => {
+                                    // `const_ty` reports things that aren't types at all, but
+                                    // it accepts every zero-sized value as its own type (e.g. the
+                                    // `void` of `while c {} .{ a = 1 }`), and other non-struct
+                                    // types are real types too (`i32.{ a = 1 }`)
+                                    if !expected_ty.is_unknown() {
+                                        self.diagnostics.push(TyDiagnostic {
+                                            kind: TyDiagnosticKind::CantUseAsTy,
+                                            file: self.loc.file(),
+                                            expr: Some(*ty_expr),
+                                            range: self.bodies.range_for_expr(*ty_expr),
+                                            help: None,
+                                        });
+                                    }
+
                                     self.tys[self.loc].expr_tys.insert(expr, Ty::Unknown.into());
 
                                     break 'struct_lit Ty::Unknown.into();
